@@ -127,7 +127,7 @@ Example c39_witness :
   (let s := run_coarse (step false) at_site 64 [0; 0]%nat (init 0 (number 0 [[Release PCache 5]])) in
    all_events (fun e => negb (saturating e)) s = false /\ disciplined s = false) /\
   (* the repaired model blocks the second allocator instead of letting it decide on a stale snapshot *)
-  (let s := run_coarse (step true) at_site 64 (cross_sched ++ [1; 1; 1; 1])%nat (init 4194304 (number 0 cross_progs)) in
+  (let s := run_coarse (step true) at_site 64 (cross_sched ++ [0; 0; 1; 1; 1; 1])%nat (init 4194304 (number 0 cross_progs)) in
    total (sh s) = 3145728 /\ all_events nonstale s = true).
 Proof. vm_compute. repeat split. Qed.
 
